@@ -33,7 +33,7 @@ INVARIANT Export
 {props}
 """
 _info: Dict[str, Any] = {}
-NQUERIES = 8
+NQUERIES = 10
 
 
 def normalise(sink: List[Dict[str, Any]]) -> List[Dict[str, Any]]:
@@ -55,6 +55,68 @@ def replay(rec: Dict[str, Any]) -> Dict[str, Any]:
     return {"viol": viol, "events": ev if rec.get("_trace", True) else []}
 
 
+def _other_environment() -> Any:
+    """An environment whose function registry, tokens and limits differ (its own business only)."""
+    import jsonpath
+    from jsonpath.function_extensions import ExpressionType, FilterFunction
+
+    class Ninety(FilterFunction):
+        arg_types = [ExpressionType.VALUE]
+        return_type = ExpressionType.VALUE
+
+        def __call__(self, *_a: Any) -> Any:
+            return 90
+
+    class Nodes(FilterFunction):
+        arg_types = [ExpressionType.NODES]
+        return_type = ExpressionType.VALUE
+
+        def __call__(self, *_a: Any) -> Any:
+            return 90
+
+    class Other(jsonpath.JSONPathEnvironment):
+        max_int_index = 3
+        min_int_index = -3
+
+        def setup_function_extensions(self) -> None:
+            super().setup_function_extensions()
+            self.function_extensions["length"] = Ninety()
+            self.function_extensions["count"] = Nodes()
+            self.function_extensions.pop("value", None)
+
+    try:
+        return Other(filter_caching=False, unicode_escape=False, well_typed=False)
+    except Exception:  # noqa: BLE001
+        return None
+
+
+UNTYPED = ["$.c[?$.r[*] == $.r[*]]", "$.c[?$.c[*].a >= $.c[*].a]", "$..[?$..a != $..a]", "$.c[?_.v == _.v && $.c[*] == $.c[*]]", "$.c[?$.c[*].a == @.a]"]
+
+
+def untyped_differential(_n: int) -> List[Tuple[str, Dict[str, Any], str]]:
+    """Queries only an environment without type checks accepts (comparisons of non-singular queries): the specification
+    gives them no meaning, so they are compared only with themselves - filter caching on against off."""
+    import jsonpath
+
+    out = []
+    for text in UNTYPED:
+        res = []
+        for caching in (True, False):
+            env = jsonpath.JSONPathEnvironment(filter_caching=caching, well_typed=False)
+            try:
+                path = env.compile(text)
+                r = []
+                for d in _info["docs"]:
+                    for c in _info["ctxs"]:
+                        r.append([tuple(m.parts) for m in path.finditer(untag(d["doc"]), filter_context=untag(c))])
+                res.append(("ok", r))
+            except BaseException as e:  # noqa: BLE001
+                res.append(("err:" + exc_family(e), None))
+        if res[0] != res[1]:
+            out.append((f"untyped:caching-on-differs-from-off|{text}", {"query": text, "caching_on": str(res[0])[:300], "caching_off": str(res[1])[:300]}, "caching on differs from off"))
+    return out
+
+
 def _replay(rec: Dict[str, Any]) -> List[Tuple[str, Dict[str, Any], str]]:
     import jsonpath
     from jsonpath import _verif
@@ -64,6 +126,7 @@ def _replay(rec: Dict[str, Any]) -> List[Tuple[str, Dict[str, Any], str]]:
         if caching and _verif.ENABLED:
             _verif.reset()
         env = jsonpath.JSONPathEnvironment(filter_caching=caching)
+        _other_environment()      # another, differently configured environment comes into being: nothing of it may show here
         docs = [untag(d["doc"]) for d in _info["docs"]]
         ctxs = [untag(c) for c in _info["ctxs"]]
         pd = [canon(d["doc"]) for d in _info["docs"]]
@@ -121,6 +184,7 @@ def _replay(rec: Dict[str, Any]) -> List[Tuple[str, Dict[str, Any], str]]:
                                 elif isinstance(v, dict):
                                     v["touched-by-caller"] = True
                 elif h["act"] == "recompile":
+                    _other_environment()
                     p2 = env.compile(text)
                     if not (p2 == path) or hash(p2) != hash(path) or str(p2) != str(path):
                         disc = "recompiled-query-not-equal"
@@ -204,6 +268,10 @@ def run(chk: Check, tier: str, seed: int) -> None:
             chk.violation(sig, case, what)
         if res["events"] and rec["_trace"]:
             traces.append({"id": len(traces) + 1, "events": res["events"], "_rec": rec})
+    for res in core.pmap(untyped_differential, [0]):
+        for sig, case, what in res:
+            chk.violation(sig, case, what)
+    chk.extra["untyped_queries_compared_caching_on_off"] = len(UNTYPED)
     # ---- code -> specification: the hook events of every history validated by TLC (Trace_Cache.tla)
     if traces:
         sc = core.scratch()
